@@ -177,6 +177,28 @@ CLAIMS["C03"] = dict(
     technique="access-relation decoding + algebraic GVN (fixed-point identities) + affine abstract interpretation of integrators",
     ref="DESIGN.md section 4 C03")
 
+CLAIMS["C04"] = dict(
+    text=("PREMISE-LEVEL claim: the check decides a necessary condition named here and not the behaviour. Decided: ORDER-POLY - "
+          "the operator of linear convection decoded from the code for the generic cell (both convection signs) is exact on "
+          "cell averages of x^m for all m up to the design order of each unlimited scheme (1, 2, 3 for extrapol1, the "
+          "kappa-schemes, extrapol3) and fails at order+1; ORDER-CIRCULANT - the cells next to the periodic seam carry the same "
+          "stencil; REF-WIRING - the packaged Riemann reference hands each side's own (rho,u,p) to the external exact solver. "
+          "This is what the statement's example defect (a coefficient change lowering extrapol3 to order 2) breaks. NOT "
+          "decided: convergence of actual solves, limited MUSCL, Riemann problems, monotone L1 decrease, agreement of the "
+          "aerokit-based solutions (runtime values)."),
+    technique="access-relation decoding + exact rational moment conditions on the extracted stencil; abstract interpretation of the reference-solution wrapper",
+    ref="DESIGN.md section 4 C04, section 5")
+CLAIMS["C10"] = dict(
+    text=("PREMISE-LEVEL claim: the check decides necessary conditions visible in the code shape and not the positivity of any "
+          "trajectory. Decided: WAVE-ENCLOSE - in lattice normal form the left (right) wave speed of hlle, hllc (1D, 2D) and "
+          "shallow-water hll is a minimum (maximum) over a set containing the one-sided speed un-c (un+c), rusanov's "
+          "dissipation speed a maximum containing |uL|+cL and |uR|+cR - exactly the bounds Einfeldt's positivity condition "
+          "needs; a missing member is refuted by a witness state; DISSIP-SIGN - the mass/depth flux for a jump at rest runs "
+          "from the heavy to the light side; CFL-SPEED - the time step uses |u|+c; RK-SSP - explicit, rk2_heun, rk3ssp are "
+          "convex combinations of forward-Euler steps."),
+    technique="lattice normal form of min/max over GVN value numbers + sign analysis + AFF/SSP analysis",
+    ref="DESIGN.md section 4 C10, section 5")
+
 NA_REASONS = {
     "C09": ("runtime invariant of trajectories (range and total variation after every step for all data); its "
             "code-shape premises are owned and decided by C02, C05, C11, C12, C18; the remaining step (flux "
